@@ -3,7 +3,7 @@
 P="$1"; shift
 git -C /repo apply "$P" || { echo "patch does not apply"; exit 3; }
 for id in "$@"; do
-  VERIF_NO_KANI=1 VERIF_NO_CANARY=1 VERIF_WORK=/tmp/vwork_mut ./check "$id" 2>&1 | grep -E "^(VIOLATION|UNDECIDED|OK|obligation failed|KNOWN)" | cut -c1-330
+  VERIF_NO_KANI=1 VERIF_NO_CANARY=1 VERIF_WORK=/tmp/vwork_mut VERIF_EVIDENCE_DIR=/tmp/vwork_mut/evidence ./check "$id" 2>&1 | grep -E "^(VIOLATION|UNDECIDED|OK|obligation failed|KNOWN)" | cut -c1-330
   echo "  -> exit $?"
 done
 git -C /repo checkout -- .
